@@ -379,6 +379,10 @@ class CallGraph:
             if pref is not None:
                 ts = [m for nm, m in sorted(fn.cls.methods.items()) if nm.startswith(pref)]
                 return ts, "dynamic:getattr"
+        # dispatch through a table of functions: checker = self.TABLE.get(k) / TABLE[k] ; checker(...)   or   TABLE[k](...)
+        ts = dispatch_table_targets(prog, fn, f)
+        if ts is not None:
+            return ts, "dynamic:table"
         if key == "__main__.py::main" and isinstance(f, ast.Name) and f.id == "format":
             ts = []
             for c in prog.subclasses("_formatter"):
@@ -458,6 +462,70 @@ def lexer_parsers(prog: Program) -> List[Fn]:
             from .model import AnalysisError
             raise AnalysisError(f"Lexer.parsers element not a method name: {ast.unparse(el)}")
     return out
+
+
+def _table_expr_targets(prog: Program, fn: Fn, e) -> Optional[List[Fn]]:
+    """e = <recv>.TABLE.get(k[, d]) | <recv>.TABLE[k] | TABLE.get(k) | TABLE[k] with TABLE a dict display (class attribute of
+    fn's class or module-level name) whose values are names of methods of the class / functions of the module."""
+    tab = None
+    if isinstance(e, ast.Call) and isinstance(e.func, ast.Attribute) and e.func.attr == "get" and e.args:
+        tab = e.func.value
+    elif isinstance(e, ast.Subscript):
+        tab = e.value
+    if tab is None:
+        return None
+    disp = None
+    owner_cls = None
+    if isinstance(tab, ast.Attribute) and isinstance(tab.value, ast.Name) and tab.value.id in ("self", "cls") and fn.cls is not None:
+        disp = fn.cls.attrs.get(tab.attr)
+        owner_cls = fn.cls
+    elif isinstance(tab, ast.Attribute) and isinstance(tab.value, ast.Name) and tab.value.id in prog.classes:
+        owner_cls = prog.classes[tab.value.id]
+        disp = owner_cls.attrs.get(tab.attr)
+    elif isinstance(tab, ast.Name):
+        if fn.cls is not None and tab.id in fn.cls.attrs:
+            owner_cls = fn.cls
+            disp = fn.cls.attrs[tab.id]
+        else:
+            vals = fn.mod.assigns.get(tab.id)
+            disp = vals[0] if vals and len(vals) == 1 and isinstance(vals[0], ast.expr) else None
+    if not isinstance(disp, ast.Dict) or not disp.values:
+        return None
+    out: List[Fn] = []
+    for v in disp.values:
+        t = None
+        if isinstance(v, ast.Name):
+            if owner_cls is not None and v.id in owner_cls.methods:
+                t = owner_cls.methods[v.id]
+            elif v.id in fn.mod.functions:
+                t = fn.mod.functions[v.id]
+        elif isinstance(v, ast.Attribute) and isinstance(v.value, ast.Name) and v.value.id in prog.classes:
+            t = prog.method(v.value.id, v.attr)
+        if t is None:
+            return None
+        if t not in out:
+            out.append(t)
+    return out
+
+
+def dispatch_table_targets(prog: Program, fn: Fn, f) -> Optional[List[Fn]]:
+    if isinstance(f, (ast.Subscript, ast.Call)):
+        return _table_expr_targets(prog, fn, f)
+    if isinstance(f, ast.Name):
+        found = None
+        for n in walk_fn(fn.node):
+            tgt = val = None
+            if isinstance(n, ast.NamedExpr):
+                tgt, val = n.target, n.value
+            elif isinstance(n, ast.Assign) and len(n.targets) == 1:
+                tgt, val = n.targets[0], n.value
+            if isinstance(tgt, ast.Name) and tgt.id == f.id:
+                ts = _table_expr_targets(prog, fn, val)
+                if ts is None:
+                    return None
+                found = (found or []) + [t for t in ts if t not in (found or [])]
+        return found
+    return None
 
 
 def getattr_prefix(fn: Fn, var: str) -> Optional[str]:
